@@ -133,12 +133,12 @@ class Soap12(Soap11):
                                                         subelts, add_type=False)
 
     def schema_validation_error_to_parent(self, ctx, cls, inst, parent, ns, **_):
-        subelts = [
-            E("{%s}Reason" % self.soap_env, inst.faultstring),
-            E("{%s}Role" % self.soap_env, inst.faultactor),
-        ]
+        # the fault string of a SchemaValidationError is a bytes object that
+        # only contains ascii characters
+        if isinstance(inst.faultstring, bytes):
+            inst.faultstring = inst.faultstring.decode('ascii')
 
-        return self._fault_to_parent_impl(ctx, cls, inst, parent, ns, subelts)
+        return self.fault_to_parent(ctx, cls, inst, parent, ns)
 
     def fault_from_element(self, ctx, cls, element):
         nsmap = element.nsmap
